@@ -16,7 +16,7 @@ from vmon.props import c08
 LEVEL = "exploration"
 SHARDS = {"quick": 16, "thorough": 16}
 KINDS = ("integer", "float", "enumerated", "boolean", "string", "binary", "abstime", "reltime")
-MUST = [f"fields.{k}" for k in KINDS] + ["packets.depth>=2", "stream.items", "stream.error_objects", "outcome.unrecognized",
+MUST = [f"fields.{k}" for k in KINDS] + ["directed.packets", "packets.depth>=2", "stream.items", "stream.error_objects", "outcome.unrecognized",
                                           "outcome.ok", "read_as_int.evaluations", "selfcheck.documents", "mission.packets"]
 RULE = ("document = seeded IR (container tree depth<=3, fan-out<=3, nested/shared containers, all eight parameter-type "
         "kinds, every encoding, calibrators, criteria of every form, dynamic lengths) rendered by my writer and loaded "
@@ -221,3 +221,30 @@ def run(ctx):
     for m in range(len(MISSIONS)):
         if ctx.mine(m + 5):
             mission_replay(ctx, m)
+    directed_rare(ctx)
+
+
+def directed_rare(ctx):
+    """feature combinations the random generator meets only now and then, driven for certain on every run: the C09 one-feature
+    documents (every optional attribute, every length form incl. fractional calibrated references, spline points sharing a raw value,
+    wide enumerations ...) decoded end to end and judged against the model, every referenced length value 0..15"""
+    from vmon.props.c09 import directed_docs
+    for j, (name, doc) in enumerate(directed_docs()):
+        if not ctx.mine(j):
+            continue
+        info = harness.DocInfo(doc)
+        rng = ctx.rng("directed", j)
+        ld = monitored(load_definition, render.render_doc(doc, opts=render.Opts(explicit=None, rng=rng)))
+        if ld.exc is not None:
+            ctx.violation(f"load/exception/{type(ld.exc).__name__}", f"directed document {name!r}: {ld.exc!r}", {"document": name})
+            continue
+        ctx.count("directed.documents")
+        raws = list(gen.gen_packets(rng, doc, 12, deltas=(0, 0, 0, 1)))
+        for r in raws:
+            o = ref.walk(doc, r)
+            step, pkt = harness.parse_single(ld.value, r)
+            ctx.count("evaluations")
+            ctx.count("directed.packets")
+            for mech, msg in harness.judge_single(ctx, info, r, step, pkt, o):
+                ctx.violation("directed/" + mech, f"{name}: " + msg, {"document": name, "raw": r, "model_status": o.status})
+                break
